@@ -449,6 +449,10 @@ def check(ctx: Ctx) -> None:
     check_default_errors(ctx)
     check_delay_flow(ctx)
     check_retry_loops(ctx)
+    # R11.6 (daemons/timers "recorded as failed for good"): a runner that ended on its own -- also by a final failure -- is recorded in
+    # forever_stopped, which requires the reason test to precede the runner's own stopper.set(DONE)
+    from . import _stoppers
+    _stoppers.check_runner_exit_order(ctx, 'R11.6')
 
 
 SPEC = PropSpec(
